@@ -84,8 +84,8 @@ fn check_enum(rep: &mut Report, name: &str, base: &str, family: &[&str], c: &str
             Ok(Some((tag, _, _))) => {
                 let want = format!("{base}{l}");
                 if tag != want {
-                    if l.is_empty() {
-                        // no letter given: the heuristic is allowed to choose (judged in part B)
+                    if l.is_empty() && !in_family {
+                        // no letter given and the family has no letter-less option: the heuristic is allowed to choose (judged in part B)
                     } else if in_family {
                         rep.fail(&format!("wrong_variant|{name}|family-letter:{}", if l.is_empty() { "-" } else { l }), wit("a letter of the family returned another variant", json!({"letter": l, "emitted_tag": tag})));
                     } else {
